@@ -293,7 +293,11 @@ def set_default_doc(param, emit_default_doc=True):
                     if _param["doc"][-1] in frozenset((".", ","))
                     else "{doc}.".format(doc=_param["doc"])
                 ),
-                default=(quote(_param["default"]) or '""')  # `quote` leaves the empty string bare
+                default=(
+                    '""'  # `quote` leaves the empty string bare
+                    if _param["default"] == ""
+                    else quote(_param["default"])
+                )
                 if needs_quoting(_param.get("typ"))
                 else _param["default"],
             )
